@@ -70,6 +70,108 @@ def instances(tier, rnd):
         yield dict(n=2, problem=prob)
 
 
+    # n = 3, 4 (and 5 in the thorough tier): a valid full grid (row r = base pattern, digits/bands permuted)
+    # with a few cells erased, so the oracle's backtracking stays tiny while clue values above 9 and the
+    # box geometry for larger n are exercised; every third one gets a clue changed (usually contradictory)
+    for n in ([3, 4] if tier == "quick" else [3, 4, 5]):
+        size = n * n
+        for i in range(3 if tier == "quick" else 12):
+            digits = list(range(1, size + 1))
+            rnd.shuffle(digits)
+            full = [[digits[(n * (r % n) + r // n + c) % size] for c in range(size)] for r in range(size)]
+            k = rnd.randint(1, 2 * size)
+            cells = rnd.sample([(y, x) for y in range(size) for x in range(size)], k)
+            prob = [row[:] for row in full]
+            for (y, x) in cells:
+                prob[y][x] = 0 if rnd.random() < 0.7 else -1
+            if i % 3 == 2:
+                y, x = cells[0]
+                prob[y][x] = full[y][(x + 1) % size]      # the neighbour's digit, given twice in the row
+            if i % 3 == 1:
+                # erase one whole digit: the largest one (> 9 for n >= 4) is forced everywhere
+                for y in range(size):
+                    for x in range(size):
+                        if full[y][x] == size and rnd.random() < 0.8:
+                            prob[y][x] = 0
+            yield dict(n=n, problem=prob)
+        # sparse contradictory boards: only row 0 is given, with one digit (the largest / the smallest) twice
+        for dup in (size, 1):
+            row = list(range(1, size + 1))
+            rnd.shuffle(row)
+            j = row.index(dup)
+            row[(j + 1 + rnd.randrange(size - 1)) % size] = dup
+            yield dict(n=n, problem=[row] + [[0] * size for _ in range(size - 1)])
+
+
+def obeys(inst, grid):
+    """independent checker: grid {(y, x): value} obeys the rules and keeps the givens"""
+    n = inst["n"]
+    size = n * n
+    want = set(range(1, size + 1))
+    g = [[grid[(y, x)] for x in range(size)] for y in range(size)]
+    for i in range(size):
+        if set(g[i]) != want or set(g[y][i] for y in range(size)) != want:
+            return False
+    for by in range(0, size, n):
+        for bx in range(0, size, n):
+            if set(g[y][x] for y in range(by, by + n) for x in range(bx, bx + n)) != want:
+                return False
+    p = inst["problem"]
+    return all(p[y][x] < 1 or p[y][x] == g[y][x] for y in range(size) for x in range(size))
+
+
+def large_instances(tier, rnd):
+    """boards too large for solving with the z3 back end in the check's budget (16x16, 25x25, ...): only the
+    posted constraint program is examined.  Every instance has at most one rule-obeying grid BY CONSTRUCTION
+    (A: a valid grid with at most one cell erased per row -- each is the only digit its row lacks; B: the
+    same with one given repeated in its row -- no grid), and comes with candidate grids judged by obeys()."""
+    def as_grid(rows):
+        return {(y, x): rows[y][x] for y in range(len(rows)) for x in range(len(rows))}
+
+    for n in ([3, 4, 5] if tier == "quick" else [2, 3, 4, 5, 6]):
+        size = n * n
+        for rep in range(2 if tier == "quick" else 6):
+            digits = list(range(1, size + 1))
+            rnd.shuffle(digits)
+            full = [[digits[(n * (r % n) + r // n + c) % size] for c in range(size)] for r in range(size)]
+            prob = [row[:] for row in full]
+            erased = []
+            for y in range(size):
+                if rnd.random() < 0.8:
+                    x = rnd.randrange(size)
+                    prob[y][x] = rnd.choice([0, 0, -1])
+                    erased.append((y, x))
+            variants = [("forced", prob)]
+            if erased:
+                y, x = erased[0]
+                dup = [row[:] for row in prob]
+                dup[y][x] = full[y][(x + 1) % size]
+                variants.append(("given-twice-in-row", dup))
+            # candidate grids
+            grids = [("the grid", full)]
+            for a, b in [(size, size - 1), (1, 2), tuple(rnd.sample(range(1, size + 1), 2)), (size, 1)]:
+                grids.append(("digits %d and %d exchanged" % (a, b), [[b if v == a else a if v == b else v for v in row] for row in full]))
+            r1 = rnd.randrange(size)
+            r2 = r1 - r1 % n + (r1 % n + 1) % n
+            sw = [row[:] for row in full]
+            sw[r1], sw[r2] = sw[r2], sw[r1]
+            grids.append(("two rows of a band exchanged", sw))
+            for k in range(3):
+                y, x = rnd.randrange(size), rnd.randrange(size)
+                one = [row[:] for row in full]
+                one[y][x] = one[y][x] % size + 1
+                grids.append(("one cell changed", one))
+            if erased:
+                y, x = erased[-1]
+                for v in (size, 1, 10 if size >= 10 else size):
+                    one = [row[:] for row in full]
+                    one[y][x] = v
+                    grids.append(("erased cell filled with %d" % v, one))
+            for vname, pr in variants:
+                inst = dict(n=n, problem=pr)
+                yield inst, [(as_grid(g), obeys(inst, as_grid(g)), "%s#%s" % (vname, gname)) for gname, g in grids]
+
+
 _EX = [
     [0, 0, 0, 0, 0, 0, 0, 0, 0],
 ]
